@@ -287,8 +287,13 @@ func runRealClientAgainst(t *testing.T, sc *C07Scenario, srv *rsyncd.Server, cli
 
 type C19Scenario struct {
 	Rules []string `json:"rules"`
-	Addrs []string `json:"addrs"`
-	Tr    Transport `json:"tr"`
+	// Rules2 guard a second module of the same daemon; every address asks for
+	// both modules (in the order Order decides) so that a verdict for one
+	// module cannot leak into the other.
+	Rules2 []string  `json:"rules2,omitempty"`
+	Order  uint64    `json:"order,omitempty"`
+	Addrs  []string  `json:"addrs"`
+	Tr     Transport `json:"tr"`
 }
 
 type c19 struct{}
@@ -344,6 +349,10 @@ func (c19) Generate(seed uint64, tier string, index int) any {
 		for i := 0; i < l; i++ {
 			sc.Rules = append(sc.Rules, c19RulePool[g.R.Intn(n)])
 		}
+		for i := 0; i < g.R.Intn(3); i++ {
+			sc.Rules2 = append(sc.Rules2, c19RulePool[g.R.Intn(n)])
+		}
+		sc.Order = g.R.Uint64() >> 1
 		k := 6
 		for i := 0; i < k; i++ {
 			sc.Addrs = append(sc.Addrs, c19AddrPool[g.R.Intn(len(c19AddrPool))])
@@ -403,81 +412,91 @@ func (c19) Run(t *testing.T, scenario any, job *Job, res *Result) {
 		return
 	}
 	slog := &lockedBuf{max: 1 << 16}
-	srv, err := rsyncd.NewServer([]rsyncd.Module{{Name: "guarded", Path: lay.Src, ACL: sc.Rules}, {Name: "open", Path: lay.Src}}, rsyncd.WithStderr(slog), rsyncd.DontRestrict())
+	srv, err := rsyncd.NewServer([]rsyncd.Module{{Name: "guarded", Path: lay.Src, ACL: sc.Rules}, {Name: "other", Path: lay.Src, ACL: sc.Rules2}}, rsyncd.WithStderr(slog), rsyncd.DontRestrict())
 	if err != nil {
 		res.Inconclusive = err.Error()
 		return
 	}
 	nallow, ndeny, nmal := 0, 0, 0
-	for _, as := range sc.Addrs {
+	for ai, as := range sc.Addrs {
 		addr, err := netip.ParseAddr(as)
 		if err != nil {
 			res.Invalid = "address " + as
 			return
 		}
-		wantAllow, why := aclModel(sc.Rules, addr)
-		remote := netip.AddrPortFrom(addr, 40000).String()
-		var status string
-		var after []byte
-		var pr *refproto.PullResult
-		out := RunWithRef(t, &RefRun{Tr: sc.Tr, Serve: srv, RemoteAddr: remote,
-			Ref: func(w *refproto.Wire) error {
-				var err error
-				pr, err = refproto.Pull(w, refproto.PullOpts{Daemon: true, Module: "guarded", Args: []string{"--server", "--sender", "-r", ".", "guarded/"}, ServerIsSender: true,
-					Plan: func(int, *refproto.Entry, int32) (bool, []byte, int, int) { return true, nil, 0, 0 }})
-				if pr != nil {
-					status = pr.Status
-				}
-				if pr != nil && pr.Stage == "refused" {
-					// after the error line the server must send nothing more: read until EOF
-					for {
-						b, rerr := w.GetBytes(1)
-						if rerr != nil {
-							break
-						}
-						after = append(after, b...)
-						if len(after) > 4096 {
-							break
-						}
+		mods := []string{"guarded", "other"}
+		if (sc.Order>>uint(ai%60))&1 == 1 {
+			mods = []string{"other", "guarded"}
+		}
+		for _, modName := range mods {
+			rules := sc.Rules
+			if modName == "other" {
+				rules = sc.Rules2
+			}
+			wantAllow, why := aclModel(rules, addr)
+			remote := netip.AddrPortFrom(addr, 40000).String()
+			var status string
+			var after []byte
+			var pr *refproto.PullResult
+			out := RunWithRef(t, &RefRun{Tr: sc.Tr, Serve: srv, RemoteAddr: remote,
+				Ref: func(w *refproto.Wire) error {
+					var err error
+					pr, err = refproto.Pull(w, refproto.PullOpts{Daemon: true, Module: modName, Args: []string{"--server", "--sender", "-r", ".", modName + "/"}, ServerIsSender: true,
+						Plan: func(int, *refproto.Entry, int32) (bool, []byte, int, int) { return true, nil, 0, 0 }})
+					if pr != nil {
+						status = pr.Status
 					}
-					return nil
+					if pr != nil && pr.Stage == "refused" {
+						// after the error line the server must send nothing more: read until EOF
+						for {
+							b, rerr := w.GetBytes(1)
+							if rerr != nil {
+								break
+							}
+							after = append(after, b...)
+							if len(after) > 4096 {
+								break
+							}
+						}
+						return nil
+					}
+					return err
+				}})
+			res.AddRef(out)
+			desc := fmt.Sprintf("module=%s rules=%q (other module of the same daemon asked in order %v) address=%s", modName, rules, mods, as)
+			if out.Outcome == kernel.Deadlock {
+				res.Violate("deadlock", "acl-hang", desc+": "+out.Pending)
+				return
+			}
+			granted := status == "@RSYNCD: OK"
+			if granted != wantAllow {
+				sig := "granted-but-model-denies"
+				if !granted {
+					sig = "denied-but-model-allows"
 				}
-				return err
-			}})
-		res.AddRef(out)
-		desc := fmt.Sprintf("rules=%q address=%s", sc.Rules, as)
-		if out.Outcome == kernel.Deadlock {
-			res.Violate("deadlock", "acl-hang", desc+": "+out.Pending)
-			return
-		}
-		granted := status == "@RSYNCD: OK"
-		if granted != wantAllow {
-			sig := "granted-but-model-denies"
-			if !granted {
-				sig = "denied-but-model-allows"
-			}
-			res.Violate("acl-decision", sig+":"+why, fmt.Sprintf("%s: daemon answered %q, first-match model says allow=%v (%s)", desc, status, wantAllow, why))
-			return
-		}
-		if granted {
-			nallow++
-			if out.RefErr != nil || pr.Stage != "done" {
-				res.Violate("acl-decision", "granted-session-broken", fmt.Sprintf("%s: access granted but the session failed at stage %s: %v", desc, pr.Stage, out.RefErr))
+				res.Violate("acl-decision", sig+":"+why, fmt.Sprintf("%s: daemon answered %q, first-match model says allow=%v (%s)", desc, status, wantAllow, why))
 				return
 			}
-		} else {
-			if why == "malformed" {
-				nmal++
+			if granted {
+				nallow++
+				if out.RefErr != nil || pr.Stage != "done" {
+					res.Violate("acl-decision", "granted-session-broken", fmt.Sprintf("%s: access granted but the session failed at stage %s: %v", desc, pr.Stage, out.RefErr))
+					return
+				}
 			} else {
-				ndeny++
-			}
-			if !strings.HasPrefix(status, "@ERROR") {
-				res.Violate("acl-decision", "no-error-line", fmt.Sprintf("%s: access must be refused with an @ERROR line, got %q", desc, status))
-				return
-			}
-			if len(after) > 0 {
-				res.Violate("acl-leak", "data-after-error", fmt.Sprintf("%s: %d bytes followed the @ERROR line: %q", desc, len(after), after))
-				return
+				if why == "malformed" {
+					nmal++
+				} else {
+					ndeny++
+				}
+				if !strings.HasPrefix(status, "@ERROR") {
+					res.Violate("acl-decision", "no-error-line", fmt.Sprintf("%s: access must be refused with an @ERROR line, got %q", desc, status))
+					return
+				}
+				if len(after) > 0 {
+					res.Violate("acl-leak", "data-after-error", fmt.Sprintf("%s: %d bytes followed the @ERROR line: %q", desc, len(after), after))
+					return
+				}
 			}
 		}
 	}
